@@ -25,11 +25,13 @@ pub struct Cfg {
     pub drain: bool,
     /// smoke runs: `with_ring_buffer::<_, N>(N * capmul)` — the capacity argument (the const N is what sizes the ring)
     pub capmul: usize,
+    /// … or `N / capdiv` (a capacity argument *smaller* than the const N; still a power of two)
+    pub capdiv: usize,
 }
 
 pub fn parse_cfg(a: &[&str]) -> Cfg {
     let mut c = Cfg { n: 4, multi: false, block: false, stages: vec![vec![false]], writers: vec![vec![1]],
-                      sched: "random:1:128".into(), budget: 200_000, drain: true, capmul: 1 };
+                      sched: "random:1:128".into(), budget: 200_000, drain: true, capmul: 1, capdiv: 1 };
     for t in a {
         if let Some((k, v)) = t.split_once('=') {
             match k {
@@ -47,6 +49,7 @@ pub fn parse_cfg(a: &[&str]) -> Cfg {
                 "budget" => c.budget = v.parse().unwrap(),
                 "drain" => c.drain = v == "1",
                 "capmul" => c.capmul = v.parse().unwrap(),
+                "capdiv" => c.capdiv = v.parse().unwrap(),
                 _ => {}
             }
         }
@@ -545,7 +548,7 @@ fn smoke_pipeline<const N: usize>(cfg: &Cfg, log: &Arc<std::sync::Mutex<Vec<Stri
             log.lock().unwrap().push("M joined => -".into());
         }};
     }
-    let b0 = RustDisruptorBuilder::with_ring_buffer::<u64, N>(N * cfg.capmul);
+    let b0 = RustDisruptorBuilder::with_ring_buffer::<u64, N>(N * cfg.capmul / cfg.capdiv);
     match (cfg.block, cfg.multi) {
         (false, false) => go!(b0.with_spin_wait(), with_single_producer, single),
         (true, false) => go!(b0.with_blocking_wait(), with_single_producer, single),
